@@ -152,11 +152,11 @@ pub fn property() -> Property {
             |_, i| LineCase { line: repo_lines()[i as usize].clone() },
             check,
         ),
-        prop_family("atoms-random", 150_000, 5_000_000, |_| atom_line(40).prop_map(|line| LineCase { line }), check),
+        prop_family("atoms-random", 1_000_000, 10_000_000, |_| atom_line(40).prop_map(|line| LineCase { line }), check),
         prop_family(
             "raw-text",
-            50_000,
-            2_000_000,
+            300_000,
+            4_000_000,
             |_| prop_oneof!["\\PC{0,40}", "[ -~\t]{0,60}", any::<String>()].prop_map(|line| LineCase { line: line.replace('\n', " ") }),
             check,
         ),
